@@ -43,6 +43,18 @@ def text_pool():
     for (ty, o) in (("dataset", "+"), ("dataset", "-"), ("scalar", "*")):
         t.append(UDO.format(n="f1", t=ty, o=o) + "\nDS_r <- f1(DS_1, %s);" % ("DS_2" if ty == "dataset" else "2"))
     t.append("DS_r <- f1(DS_1, DS_2);")
+    # operators with other parameter kinds, and texts that *call without defining* them in ways whose statement
+    # order / cycle detection depends on which arguments count as dependencies
+    UDOC = "define operator f2 (x dataset, c component) returns dataset is x[calc Me_9 := c * 2] end operator;"
+    UDOS = "define operator f2 (x dataset, c dataset) returns dataset is x + c end operator;"
+    UDOK = "define operator f3 (x dataset, k number default 2) returns dataset is x * k end operator;"
+    t += [UDOC + "\nDS_r <- f2(DS_1, Me_1);", UDOS + "\nDS_r <- f2(DS_1, DS_2);", UDOK + "\nDS_r <- f3(DS_1, 3); DS_s <- f3(DS_2);",
+          "DS_a <- f2(DS_1, DS_b); DS_b <- f2(DS_1, DS_a);",                 # a cycle if both arguments are dependencies
+          "DS_a <- f2(DS_1, DS_b);\nDS_b <- DS_1 * 2;",                     # order depends on the second argument
+          "DS_b <- DS_1 * 2; DS_a <- f2(DS_b, Me_1);", "sc_k := 3; DS_a <- f3(DS_1, sc_k);", "DS_a <- f3(DS_1, sc_k); sc_k := 3;",
+          UDOC + "\nDS_a <- f2(DS_1, DS_b); DS_b <- f2(DS_1, DS_a);",
+          DPR.format(n="dpr_1", c="Me_1") + "\nDS_a <- check_datapoint(DS_b, dpr_1); DS_b <- DS_1;",
+          "DS_a <- check_datapoint(DS_b, dpr_1); DS_b <- DS_1;"]
     for v in ("Z", "Q"):
         t.append(VP.format(n="vp", v=v) + "\nDS_r <- DS_1 + DS_2;")
     # texts that get past the parser and fail later (AST construction, DAG), placed *after* definitions
